@@ -298,3 +298,45 @@ pub fn call_budget_exhausted() -> bool {
         c.get() > MAX_CALLS_PER_TX
     })
 }
+
+/// `paging_audit` plus cursors that are NOT keys of the listing (e.g. addresses that are not members):
+/// a page requested after such a cursor must be exactly the part of the full listing whose keys are
+/// greater than the cursor (string order), cut at the page size.
+pub fn paging_audit_cursors(
+    name: &str,
+    f: &dyn Fn(Option<String>, Option<u32>) -> Option<Vec<String>>,
+    cursors: &[String],
+) -> Option<String> {
+    if let Some(d) = paging_audit(name, f) {
+        return Some(d);
+    }
+    // the full listing, walked with the default page size
+    let mut full: Vec<String> = vec![];
+    let mut cursor: Option<String> = None;
+    for _ in 0..10_000 {
+        match f(cursor.clone(), None) {
+            Some(p) if !p.is_empty() => {
+                let next = p.last().unwrap().split(':').next().unwrap().to_string();
+                if cursor.as_deref() == Some(next.as_str()) {
+                    break;
+                }
+                cursor = Some(next);
+                full.extend(p);
+            }
+            _ => break,
+        }
+    }
+    for c in cursors.iter().take(6) {
+        if full.iter().any(|e| e.split(':').next().unwrap() == c) {
+            continue;
+        }
+        if let Some(page) = f(Some(c.clone()), Some(30)) {
+            let expect: Vec<String> =
+                full.iter().filter(|e| e.split(':').next().unwrap() > c.as_str()).take(30).cloned().collect();
+            if page != expect {
+                return Some(format!("{name}:page-after-non-key-cursor-{}-items-expected-{}", page.len(), expect.len()));
+            }
+        }
+    }
+    None
+}
